@@ -467,4 +467,51 @@ def lastFrame (cfg : Cfg) (ov : Overflow) (r0 : Frame) (h : List Op) : Frame :=
 def emit (cfg : Cfg) (ov : Overflow) (r0 : Frame) (h : List Op) : List TermOp :=
   (run cfg noFault (initSt ov r0) h).2.1
 
+/-! ## any number of sessions on the same display object -/
+
+/-- The rows a displayed frame occupies: an empty frame still has the (blank) row the cursor is on. -/
+def region : Frame → Frame
+  | [] => [[]]
+  | l :: rest => l :: rest
+
+/-- What a `stop` leaves as finished output: the whole last frame (at least the row of the line feed)
+when not transient; nothing when transient — except the blank row an *empty* final frame still costs. -/
+def leftBy (cfg : Cfg) (f : Frame) : List Line :=
+  if cfg.transient then (if f.isEmpty then [[]] else []) else region f
+
+/-- `stop` in the middle of a history: what the display leaves joins the finished output, nothing is on
+display any more.  (`View.printed` is then: printed lines and frames left by stopped sessions, in order.) -/
+def viewStopM (cfg : Cfg) (st : St) (v : View) : View :=
+  if st.started then { printed := v.printed ++ leftBy cfg (stopFrame cfg st), frame := [] } else v
+
+def viewStepM (cfg : Cfg) (st : St) (v : View) (op : Op) : View :=
+  if op = .stop then viewStopM cfg st v else viewStep cfg st v op
+
+def specRunM (cfg : Cfg) : St → View → List Op → St × View
+  | st, v, [] => (st, v)
+  | st, v, op :: rest => specRunM cfg (step cfg noFault st op).st (viewStepM cfg st v op) rest
+
+/-- Well-formed histories with any number of sessions: as `wfOps`, but `stop` may occur anywhere. -/
+def wfOpsM (cfg : Cfg) : St → List Op → Bool
+  | _, [] => true
+  | st, op :: rest =>
+    let r := step cfg noFault st op
+    (if op = .stop then
+      r.err.isNone && (!st.started || !cfg.transient || (stopFrame cfg st).length + 1 ≤ cfg.height)
+    else
+      op.applies cfg.kind && r.err.isNone
+        && (!redraws cfg st op || (shown cfg r.st).length ≤ cfg.height))
+    && wfOpsM cfg r.st rest
+
+def wfM (cfg : Cfg) (ov : Overflow) (r0 : Frame) (h : List Op) : Bool :=
+  1 ≤ cfg.height && wfOpsM cfg (initSt ov r0) h
+
+/-- Finished output of a multi-session history: printed lines and the frames left by stopped sessions. -/
+def finished (cfg : Cfg) (ov : Overflow) (r0 : Frame) (h : List Op) : List Line :=
+  (specRunM cfg (initSt ov r0) {} h).2.printed
+
+/-- The frame of the session that is still running at the end of the history (`[]` if none). -/
+def liveFrameOf (cfg : Cfg) (ov : Overflow) (r0 : Frame) (h : List Op) : Frame :=
+  (specRunM cfg (initSt ov r0) {} h).2.frame
+
 end RichModel.Live
